@@ -123,6 +123,15 @@ def run(c):
                 c.broken.append("model driver failed: %s" % mout[-1000:])
             if summ.get("errors", 0):
                 c.broken.append("model driver could not read %d case lines: %s" % (summ["errors"], "; ".join(other[:3])[:600]))
+            kf = {f["id"]: f for f in c.known_findings()}
+            for fid, prefix in (("C13-quantile-tie", "KNOWN quantile-tie"), ("C13-mean-overflow", "KNOWN mean-overflow")):
+                hits = [l for l in other if l.startswith(prefix)]
+                cov["known_%s_witnesses" % fid.split("-", 1)[1].replace("-", "_")] = len(hits)
+                if hits:
+                    if fid in kf:
+                        c.known(kf[fid])
+                    else:
+                        c.violation({"kind": "a finding that KNOWN_FINDINGS.jsonl does not list", "lines": hits[:5]})
             for v in viol[:3]:
                 c.violation({"kind": "oracle c13_ok false on the implementation's observation",
                              "why": v.rsplit(" :: ", 1)[-1], "driver_line": v[:500],
